@@ -319,7 +319,7 @@ func checkC12(c *Ctx) {
 		want.w = 16
 		var idx [8]bform
 		for j := 0; j < 8; j++ {
-			idx[j] = s.b[8+j] ^ by.b[j]
+			idx[j] = s.b[8+j].xor(by.b[j])
 		}
 		for k := 0; k < 16; k++ {
 			if k >= 8 {
@@ -327,7 +327,7 @@ func checkC12(c *Ctx) {
 			}
 			for j := 0; j < 8; j++ {
 				if ref[1<<uint(j)]>>uint(k)&1 == 1 {
-					want.b[k] ^= idx[j]
+					want.b[k] = want.b[k].xor(idx[j])
 				}
 			}
 		}
@@ -339,7 +339,7 @@ func checkC12(c *Ctx) {
 			}
 		}
 		if diff >= 0 {
-			c.Fail("O2", "crc16 step matrix", nextV.Pos(), fmt.Sprintf("output bit %d of the fold body is the affine form %#x over (state bits 0-15, byte bits 16-23, const bit 63); CRC-16/XMODEM requires %#x", diff, uint64(got.b[diff]), uint64(want.b[diff])))
+			c.Fail("O2", "crc16 step matrix", nextV.Pos(), fmt.Sprintf("output bit %d of the fold body is the affine form %s over (state bits 0-15, byte bits 16-23, const = top bit); CRC-16/XMODEM requires %s", diff, got.b[diff], want.b[diff]))
 		} else {
 			c.OK("O2", "crc16 step matrix", nextV.Pos(), "16x24 GF(2) matrix of the body equals crc'=(crc<<8)^T[(crc>>8)^byte] for all 2^16 states x 2^8 bytes")
 			c.Extra["exhaustive"] = true
